@@ -14,11 +14,11 @@ pub const PATHS: &[&str] = &[
 
 const LITS: &[&str] = &["1", "\"s\"", "true", "null", "[1, 2]", "{\"b\": 1}", "{\"b\": {\"c\": 2}}", "[]", "{}", "2.5"];
 
-pub const N_PRODUCTIONS: usize = 31;
+pub const N_PRODUCTIONS: usize = 33;
 pub const PRODUCTION_NAMES: [&str; N_PRODUCTIONS] = [
     "assign_path", "assign_var", "merge_assign", "infallible_path_var", "infallible_var_path", "del", "del_compact",
     "if_exists", "if_eq", "for_each_object", "for_each_array", "map_values", "filter", "unnest", "replace_root",
-    "merge_root", "abort", "return", "exists_stmt", "assign_index_deep", "chained_assign", "infallible_path_path", "root_functions", "if_then_abort", "if_then_return", "if_chain", "abort_with_message", "variable_path_then_root", "nested_closure", "closure_return", "root_ops",
+    "merge_root", "abort", "return", "exists_stmt", "assign_index_deep", "chained_assign", "infallible_path_path", "root_functions", "if_then_abort", "if_then_return", "if_chain", "abort_with_message", "variable_path_then_root", "nested_closure", "closure_return", "root_ops", "typed_path_in_typed_position", "typed_path_closure_tail",
 ];
 
 pub struct Gen<'a> {
@@ -31,7 +31,7 @@ pub struct Gen<'a> {
 
 impl<'a> Gen<'a> {
     pub fn new(rng: &'a mut Rng) -> Self {
-        let base: [u32; N_PRODUCTIONS] = [10, 5, 4, 4, 4, 6, 4, 5, 4, 4, 4, 3, 3, 4, 3, 3, 1, 1, 2, 3, 3, 4, 3, 2, 2, 3, 1, 3, 2, 2, 3];
+        let base: [u32; N_PRODUCTIONS] = [10, 5, 4, 4, 4, 6, 4, 5, 4, 4, 4, 3, 3, 4, 3, 3, 1, 1, 2, 3, 3, 4, 3, 2, 2, 3, 1, 3, 2, 2, 3, 4, 4];
         let mut weights = base;
         // swarm: disable a random half of the productions (never all)
         for w in weights.iter_mut() {
@@ -110,7 +110,7 @@ impl<'a> Gen<'a> {
         let mut w = self.weights;
         if depth >= 2 {
             // no further nesting
-            for i in [7usize, 8, 9, 10, 11, 12, 23, 24, 25, 28, 29] {
+            for i in [7usize, 8, 9, 10, 11, 12, 23, 24, 25, 28, 29, 31, 32] {
                 w[i] = 0;
             }
         }
@@ -265,6 +265,41 @@ impl<'a> Gen<'a> {
                 let v = self.var();
                 let p = self.path();
                 let s = format!("{v} = map_values(object({}) ?? {{}}) -> |val| {{ {} = val; if val == {} {{ return {} }}; val }}", self.any(p), self.wpath(), self.lit(), self.lit());
+                if top && !self.defined.contains(&v) {
+                    self.defined.push(v);
+                }
+                s
+            }
+            31 => {
+                // a path the program itself typed (boolean / string / integer / array / object) used where that type is
+                // required without a runtime check: only a rejected write or read can make the value differ from the type
+                let p = self.npath();
+                match self.rng.below(9) {
+                    6 => format!("{p} = 4\n{} = length(random_bytes!({p}))", self.wpath()),
+                    7 => format!("{p} = 3\n{} = random_int!({p}, {p} + 1)", self.wpath()),
+                    8 => format!("{p} = 1.5\n{} = is_float(random_float!({p}, {p} + 1.0))", self.wpath()),
+                    0 => {
+                        let a = self.stmt(depth + 1, false);
+                        format!("{p} = true\nif {p} {{\n  {}\n}}", a.replace('\n', "\n  "))
+                    }
+                    1 => format!("{p} = \"Text\"\n{} = upcase({p}) + downcase({p})", self.wpath()),
+                    2 => format!("{p} = 7\n{} = {p} + 1 - ({p} * 2)", self.wpath()),
+                    3 => format!("{p} = [1, 2, 3]\n{} = length({p}) + length(push({p}, 4))", self.wpath()),
+                    4 => format!("{p} = {{\"k\": 1}}\n{} = keys({p})\n{p} |= {{\"z\": 2}}", self.wpath()),
+                    _ => format!("{p} = false\n{} = !{p} || {p}", self.wpath()),
+                }
+            }
+            32 => {
+                // the tail value of a closure comes straight from a typed path
+                let p = self.npath();
+                let q = self.path();
+                let v = self.var();
+                let s = match self.rng.below(4) {
+                    0 => format!("{p} = true\n{v} = filter(array({}) ?? [1, 2]) -> |_i, _v| {{ {p} }}", self.any(q)),
+                    1 => format!("{p} = \"key\"\n{v} = map_keys(object({}) ?? {{\"a\": 1}}) -> |_k| {{ {p} }}", self.any(q)),
+                    2 => format!("{v} = filter(object({}) ?? {{\"a\": 1}}) -> |_k, _v| {{ {p} = true; {p} }}", self.any(q)),
+                    _ => format!("{p} = \"r\"\n{v} = replace_with(\"a1b2\", r'\\d') -> |_m| {{ {p} }}"),
+                };
                 if top && !self.defined.contains(&v) {
                     self.defined.push(v);
                 }
